@@ -21,7 +21,8 @@ i.e. a dangling `nodes[]` entry, which Go would happily keep using) is `Outcome.
 out-of-range `nodes[]`/`cells[]` accesses.  `C05_ibinomial_partial` proves that no reachable state has a
 dangling or wrong `nodes[]` entry.
 
-`merge` (recursive in Go) and `demote` take fuel; `promote`, `findExt`, `consolidate`,
+`merge` (recursive in Go) and `demote` take fuel (`demote` descends one level per iteration, its fuel is the
+size of the subtree below `n`); `promote`, `findExt`, `consolidate`,
 `childrenToRootList` and the root-list scans are structural recursions (each Go iteration moves one step
 along a finite list).
 -/
@@ -76,6 +77,11 @@ def childrenOf (target : Nat) : BT → Option BT
       | some r => some r
       | none => childrenOf target s
 
+/-- `x.child` for the node `x = target` of a sibling chain -/
+def chainChild (target : Nat) : BT → Option BT
+  | nil => none
+  | node id _ c s => if id = target then some c else chainChild target s
+
 /-- unlink the root `target` from a root list: `(remaining root list, target.child)`;
 Go: the `prev/curr` scan followed by `prev.sibling = curr.sibling` (or `h.head = curr.sibling`) -/
 def removeRoot (target : Nat) : BT → Option (BT × BT)
@@ -114,6 +120,16 @@ def chainLen : BT → Nat
   | node _ _ _ s => chainLen s + 1
 
 end BT
+
+/-- `for i := range h.nodes { if h.nodes[i] != nil && p(h.nodes[i]) { return true } }; return false`
+(shared by the binomial and the Fibonacci Model) -/
+def anyCell {K V : Type} (cells : Array (Cell K V)) (p : Cell K V → Bool) : List (Option Nat) → Outcome Bool
+  | [] => .ok false
+  | none :: rest => anyCell cells p rest
+  | some id :: rest =>
+    match cells[id]? with
+    | some c => if p c then .ok true else anyCell cells p rest
+    | none => .panic
 
 structure IBinomial (K V : Type) where
   n : Int
@@ -188,27 +204,27 @@ def findExt (cmp : K → K → Int) (h : IBinomial K V) : List Nat → Outcome (
     | .panic => .panic
     | .diverge => .diverge
 
-/-- `demote(n)` -/
-def demote (cmp : K → K → Int) : Nat → IBinomial K V → Nat → Outcome (IBinomial K V)
-  | 0, _, _ => .diverge
-  | fuel + 1, h, n =>
-    match h.head.childrenOf n with
-    | none => .panic
-    | some ch =>
-      match findExt cmp h ch.chainIds with
-      | .ok none => .ok h
-      | .ok (some c) =>
-        match h.keyOf c, h.keyOf n with
-        | .ok kc, .ok kn =>
-          if cmp kc kn < 0 then
-            match h.swap c n with
-            | .ok h' => demote cmp fuel h' c
-            | .panic => .panic
-            | .diverge => .diverge
-          else .ok h
-        | _, _ => .panic
-      | .panic => .panic
-      | .diverge => .diverge
+/-- `demote(n)`; `ch` is `n.child` (the loop follows `child.child` of the child `findExt` picked) -/
+def demote (cmp : K → K → Int) : Nat → IBinomial K V → Nat → BT → Outcome (IBinomial K V)
+  | 0, _, _, _ => .diverge
+  | fuel + 1, h, n, ch =>
+    match findExt cmp h ch.chainIds with
+    | .ok none => .ok h
+    | .ok (some c) =>
+      match h.keyOf c, h.keyOf n with
+      | .ok kc, .ok kn =>
+        if cmp kc kn < 0 then
+          match h.swap c n with
+          | .ok h' =>
+            match ch.chainChild c with
+            | some ch' => demote cmp fuel h' c ch'
+            | none => .panic
+          | .panic => .panic
+          | .diverge => .diverge
+        else .ok h
+      | _, _ => .panic
+    | .panic => .panic
+    | .diverge => .diverge
 
 /-- the scan of `consolidate`; `curr` is given by its fields `(cid, co, cc)` (its sibling is the argument),
 what has been passed (`prev` and before) is rebuilt on the way back -/
@@ -282,10 +298,13 @@ def changeKey (cmp : K → K → Int) (h : IBinomial K V) (i : Int) (key : K) :
         match promote cmp h1 id with
         | .ok h2 =>
           -- `n` still names the same node; its contents may have moved up
-          match demote cmp (h2.head.size + 1) h2 id with
-          | .ok h3 => .ok (h3, true)
-          | .panic => .panic
-          | .diverge => .diverge
+          match h2.head.childrenOf id with
+          | none => .panic
+          | some ch =>
+            match demote cmp (ch.size + 1) h2 id ch with
+            | .ok h3 => .ok (h3, true)
+            | .panic => .panic
+            | .diverge => .diverge
         | .panic => .panic
         | .diverge => .diverge
       | none => .panic
@@ -371,20 +390,11 @@ def peekIndex (h : IBinomial K V) (i : Int) : Outcome (Option (K × V)) :=
       | none => .panic
     | _ => .panic
 
-/-- `for i := range h.nodes { if h.nodes[i] != nil && p(h.nodes[i]) { return true } }` -/
-def anyNode (h : IBinomial K V) (p : Cell K V → Bool) : List (Option Nat) → Outcome Bool
-  | [] => .ok false
-  | none :: rest => anyNode h p rest
-  | some id :: rest =>
-    match h.cells[id]? with
-    | some c => if p c then .ok true else anyNode h p rest
-    | none => .panic
-
 def containsKey (cmp : K → K → Int) (h : IBinomial K V) (key : K) : Outcome Bool :=
-  anyNode h (fun c => cmp c.key key == 0) h.nodes.toList
+  anyCell h.cells (fun c => cmp c.key key == 0) h.nodes.toList
 
 def containsValue (eq : V → V → Bool) (h : IBinomial K V) (val : V) : Outcome Bool :=
-  anyNode h (fun c => eq c.val val) h.nodes.toList
+  anyCell h.cells (fun c => eq c.val val) h.nodes.toList
 
 def isEmpty (h : IBinomial K V) : Bool :=
   match h.head with
